@@ -139,7 +139,7 @@ fn dj(d: &[(Universal2DBox, Option<f32>)]) -> serde_json::Value {
 
 pub fn run(tier: Tier) -> Report {
     let rep = Report::new("C14", tier);
-    rep.set_rule("every list of n <= 4 (quick) / 5 (thorough) boxes drawn with repetition from an 11-box menu (cluster of shifted boxes, nested, exact duplicate, rotated, disjoint, two corner overlaps, two invalid) x score patterns (all None; every distinct permutation of a prefix of {.9,.5,.5,.1,.7}) x nms threshold {.05,.2,.3,.5,.7} x score threshold {None, below, inside, above}; plus every list of 2-3 boxes from 7 elongated boxes that all carry the same non-zero angle (3 angles; offsets along and across the long side); plus every list of 2-3 boxes from a 5-box rotated cluster in which at least one box had its polygon generated (gen_vertices) before it was moved / turned in place; plus chain / ladder / grid families of k boxes for every k <= 40; plus an exact family: every list of 2 (thorough: 3) boxes from 60 axis-aligned boxes with dyadic corners and sizes x thresholds {1/8,1/4,1/2,3/4}, decided with zero margin (coverage exactly at the threshold must not suppress). Non-trivial = at least two valid boxes.");
+    rep.set_rule("every list of n <= 4 (quick) / 5 (thorough) boxes drawn with repetition from an 11-box menu (cluster of shifted boxes, nested, exact duplicate, rotated, disjoint, two corner overlaps, two invalid) x score patterns (all None; every distinct permutation of a prefix of {.9,.5,.5,.1,.7}) x nms threshold {.05,.2,.3,.5,.7} x score threshold {None, below, inside, above the scores, above every box height}; plus every list of 2-3 boxes from 7 elongated boxes that all carry the same non-zero angle (3 angles; offsets along and across the long side); plus every list of 2-3 boxes from a 5-box rotated cluster in which at least one box had its polygon generated (gen_vertices) before it was moved / turned in place; plus chain / ladder / grid families of k boxes for every k <= 40; plus an exact family: every list of 2 (thorough: 3) boxes from 60 axis-aligned boxes with dyadic corners and sizes x thresholds {1/8,1/4,1/2,3/4}, decided with zero margin (coverage exactly at the threshold must not suppress). Non-trivial = at least two valid boxes.");
     rep.assume("own coverage computation (engine/src/geom.rs); keep/drop decisions asserted outside a 1e-4 margin around the threshold");
     let m = menu();
     let nmax = tier.pick(4usize, 5usize);
@@ -148,7 +148,9 @@ pub fn run(tier: Tier) -> Report {
     let kept_hist: Vec<AtomicU64> = (0..8).map(|_| AtomicU64::new(0)).collect();
     let score_base = [0.9f32, 0.5, 0.5, 0.1, 0.7];
     let nms_thrs = [0.05f32, 0.2, 0.3, 0.5, 0.7];
-    let score_thrs = [None, Some(0.05f32), Some(0.5), Some(0.95)];
+    // 25 lies above every score AND above every box height: an unscored box is ranked by its height but is not
+    // subject to the score filter
+    let score_thrs = [None, Some(0.05f32), Some(0.5), Some(0.95), Some(25.0)];
     for n in 0..=nmax {
         let total = m.len().pow(n as u32);
         // distinct score patterns
